@@ -61,7 +61,10 @@ def gen_graph(src):
         else:
             nodes.append({"name": name, "kind": "prop", "deps": deps, "cache": src.chance(3, 4), "overridable": src.chance(1, 2),
                           "weights": [1 + src.choice(3) for _ in range(len(avail) if deps == "*" else len(deps))]})
-    return {"bases": bases, "nodes": nodes, "subclass": src.pick([False, False, True, "parent_holds_all", "plain_sub", "override_prop", "plain_override_prop"]), "post_init_read": [m["name"] for m in nodes if m["kind"] == "prop" and src.chance(1, 4)],
+    for m_ in nodes:
+        if m_["kind"] == "prop" and src.chance(1, 4):
+            m_["chained"] = True
+    return {"override_unmanaged": src.chance(1, 2), "bases": bases, "nodes": nodes, "subclass": src.pick([False, False, True, "parent_holds_all", "plain_sub", "override_prop", "plain_override_prop"]), "post_init_read": [m["name"] for m in nodes if m["kind"] == "prop" and src.chance(1, 4)],
             "post_init_write": src.pick([None, None, "x", "y"]),  # a dependency is (also) written inside __post_init__, after the reads
             "eager": src.chance(1, 2)}
 
@@ -146,6 +149,9 @@ def build(g, counters):
         else:
             derived_ns[node["name"]] = spec_property(getter(node), cache=node["cache"], overridable=node["overridable"],
                                                      invalidated_by="*" if node["deps"] == "*" else list(node["deps"]))
+            if node.get("chained"):
+                # built the decorator way: `.getter(...)` returns a new property, which must know its dependencies, too
+                derived_ns[node["name"]] = derived_ns[node["name"]].getter(getter(node))
     reads = list(g["post_init_read"])
     write = g.get("post_init_write")
 
@@ -178,8 +184,14 @@ def build(g, counters):
             else:
                 sub_ns[node["name"]] = derived_ns[node["name"]]
                 if g["subclass"] in ("override_prop", "plain_override_prop"):  # (the latter: overridden by an UNDECORATED subclass)
-                    pns["__annotations__"][node["name"]] = int
-                    pns[node["name"]] = spec_property(getter(node), cache=node["cache"], overridable=node["overridable"])
+                    if _unmanaged_override(g):
+                        # the parent's version is UNMANAGED and depends on something else (a base the override does not name):
+                        # for the subclass only the override's own dependencies count
+                        others = [b for b in g["bases"] if b not in node["deps"] and b != "nums"]
+                        pns[node["name"]] = spec_property(getter(node), cache=node["cache"], overridable=node["overridable"], invalidated_by=others[:1])
+                    else:
+                        pns["__annotations__"][node["name"]] = int
+                        pns[node["name"]] = spec_property(getter(node), cache=node["cache"], overridable=node["overridable"])
         if reads or write:
             sub_ns["__post_init__"] = __post_init__
         P = spec_class(bootstrap=g["eager"])(type("P", (), pns))
@@ -379,9 +391,15 @@ def run_case(ctx, case):
     ctx.case(case, nontrivial)
 
 
+def _unmanaged_override(g):
+    """The overridden properties are left unannotated (unmanaged) on the parent - only when none of them depends on '*'."""
+    return bool(g.get("override_unmanaged")) and not any(m["kind"] == "prop" and m["deps"] == "*" for m in g["nodes"])
+
+
 def managed_props(g):
     """override_prop shape (when it applies): the properties are annotated on the parent, hence managed attributes."""
-    return g["subclass"] in ("override_prop", "plain_override_prop") and all(set(m["deps"]) <= set(g["bases"]) for m in g["nodes"] if m["kind"] == "attr")
+    return (g["subclass"] in ("override_prop", "plain_override_prop") and all(set(m["deps"]) <= set(g["bases"]) for m in g["nodes"] if m["kind"] == "attr")
+            and not _unmanaged_override(g))
 
 
 def apply_mutation(ctx, case, i, obj, model, op):
